@@ -1,18 +1,19 @@
 /-
   Symbolic model of the accessory side of pair-verify, including the endpoint that installs the secure session:
     hap/pair/verify_server_controller.go (Handle, handlePairVerifyStart, handlePairVerifyFinish, reset)
-    hap/pair/verify_session.go           (accessory ephemeral key: one per controller object = per connection)
+    hap/pair/verify_session.go           (accessory ephemeral key: a new one for every start request that is accepted; F42)
     hap/endpoint/pair-verify.go          (controller per connection; installs the cryptographer)
 
-  References as in PairSetup.lean: equal iff built the same way. The accessory's ephemeral Curve25519 key is
-  fixed per connection, so a shared secret / encryption key is determined by (connection, controller ephemeral key).
+  References as in PairSetup.lean: equal iff built the same way. The accessory draws an ephemeral Curve25519 key pair
+  for every exchange: a shared secret / encryption key is determined by (connection, number of the accessory's key on
+  that connection, controller ephemeral key).
 -/
 namespace Hc.PairVerify
 
 /-- `session.EncryptionKey` / the key a sender sealed under -/
 inductive KRef
   | zero                              -- never set
-  | ofEph (conn : Nat) (e : Nat)      -- HKDF(X25519(accEph_conn, ctrlEph_e), "Pair-Verify-Encrypt-*")
+  | ofEph (conn : Nat) (epoch : Nat) (e : Nat)  -- HKDF(X25519(accEph_{conn,epoch}, ctrlEph_e), "Pair-Verify-Encrypt-*")
   | rand (n : Nat)
 deriving DecidableEq, Repr
 
@@ -21,9 +22,9 @@ inductive StartKey
   | wrongLen (n : Nat)                -- any other length (incl. missing)
 deriving DecidableEq, Repr
 
-/-- Ed25519 signature in M3: sign(sk_signer, ctrlEph ‖ name ‖ accEph_conn) -/
+/-- Ed25519 signature in M3: sign(sk_signer, ctrlEph ‖ name ‖ accEph_{conn,epoch}) -/
 inductive SigRef
-  | valid (signer : Nat) (ctrlEph : Option Nat) (name : Nat) (accConn : Nat)
+  | valid (signer : Nat) (ctrlEph : Option Nat) (name : Nat) (accConn : Nat) (accEpoch : Nat)
   | garbage (n : Nat)
   | empty
 deriving DecidableEq, Repr
@@ -64,9 +65,13 @@ structure St where
   K : KRef                            -- session.EncryptionKey
   /-- endpoint layer: the shared secret the secure session was installed with (`none` = plaintext, unverified) -/
   installed : Option (Option Nat)
+  /-- number of the accessory's ephemeral key in use on this connection (0 = none drawn for an exchange yet) -/
+  epoch : Nat := 0
+  /-- the accessory key the installed shared secret was computed with -/
+  instEpoch : Nat := 0
 deriving DecidableEq, Repr
 
-def init : St := { step := .waiting, other := none, K := .zero, installed := none }
+def init : St := { step := .waiting, other := none, K := .zero, installed := none, epoch := 0, instEpoch := 0 }
 
 inductive Out
   | http500
@@ -79,13 +84,14 @@ def openSealed (st : St) : EncData → Option Plain
   | .sealed k nonceOk intact pt => if k = st.K ∧ nonceOk ∧ intact then some pt else none
 
 def sigOk (c : Nat) (st : St) (name pk : Nat) : SigRef → Bool
-  | .valid signer ce n ac => signer == pk && ce == st.other && n == name && ac == c
+  | .valid signer ce n ac ae => signer == pk && ce == st.other && n == name && ac == c && ae == st.epoch
   | _ => false
 
 /-- one request on connection `c` against pairing store `db`.
     `fixed := false` reproduces the code before the `fix:` commits: the start handler advances the step before
-    validating the key length, and the endpoint installs the session whenever the response state is 4. -/
-def step (fixed : Bool) (c : Nat) (db : Store) (st : St) : In → St × Out
+    validating the key length, and the endpoint installs the session whenever the response state is 4;
+    `renew := false` the single accessory key per connection before F42's repair. -/
+def stepR (fixed renew : Bool) (c : Nat) (db : Store) (st : St) : In → St × Out
   | .malformedTlv => (st, .http500)
   | .badMethod => (st, .http500)
   | .badState _ => (st, .http500)
@@ -93,7 +99,9 @@ def step (fixed : Bool) (c : Nat) (db : Store) (st : St) : In → St × Out
     if st.step ≠ .waiting then ({ st with step := .waiting }, .http500)
     else match key with
       | .wrongLen _ => ({ st with step := if fixed then .waiting else .startResp }, .http500)
-      | .good e => ({ st with step := .startResp, other := some e, K := .ofEph c e }, .tlv 2 none true true)
+      | .good e =>
+        let ep := if renew then st.epoch + 1 else st.epoch
+        ({ st with step := .startResp, other := some e, epoch := ep, K := .ofEph c ep e }, .tlv 2 none true true)
   | .v3 d =>
     -- `defer verify.reset()`: every path leaves the step at waiting
     let st0 := { st with step := .waiting }
@@ -110,9 +118,11 @@ def step (fixed : Bool) (c : Nat) (db : Store) (st : St) : In → St × Out
           | .noKey => (st0, .http500)
           | .key pk =>
             if sigOk c st name pk sig then
-              ({ st0 with installed := some st.other }, .tlv 4 none false false)
+              ({ st0 with installed := some st.other, instEpoch := st.epoch }, .tlv 4 none false false)
             else
-              (if fixed then st0 else { st0 with installed := some st.other }, .tlv 4 (some 4) false false)
+              (if fixed then st0 else { st0 with installed := some st.other, instEpoch := st.epoch }, .tlv 4 (some 4) false false)
+
+def step (fixed : Bool) (c : Nat) (db : Store) (st : St) (i : In) : St × Out := stepR fixed true c db st i
 
 def In.noop : In → Bool
   | .malformedTlv | .badMethod | .badState _ => true
